@@ -6,7 +6,8 @@ set -u
 ID="$1"; PATCH="$(readlink -f "$2")"; TIER="${3:-quick}"
 WT="/tmp/seedwt-$ID-$$"
 git -C /repo worktree add --detach "$WT" HEAD >/dev/null 2>&1 || { echo "cannot create worktree"; exit 2; }
-trap 'git -C /repo worktree remove --force "$WT" >/dev/null 2>&1; rm -rf "/verif/.build/$ID-"*' EXIT
+H=$(python3 -c "import hashlib,sys;print(hashlib.sha1(sys.argv[1].encode()).hexdigest()[:8])" "$WT")
+trap 'git -C /repo worktree remove --force "$WT" >/dev/null 2>&1; rm -rf "/verif/.build/$ID-$H"' EXIT
 if ! git -C "$WT" apply "$PATCH"; then echo "patch does not apply"; exit 2; fi
 cd /verif && VERIF_REPO="$WT" timeout 3000 ./check "$ID" --tier "$TIER"
 echo "exit=$?"
